@@ -4,6 +4,7 @@ CONSTANTS
   DevPerHandle = FALSE
   DevUnguardedFill = FALSE
   DevFillOnError = FALSE
+  DevKeyNoMethod = FALSE
   NR = 2
   MaxFaults = 1
 VIEW MView
